@@ -100,8 +100,11 @@ impl Scenario for Thresh {
                 // with one identifier at one end of 1..=n and t-1 crowded at the other (products of identifier
                 // differences are largest there: where fixed-width Lagrange arithmetic overflows first)
                 p.set("g", (index % 2) as i64);
-                p.set("t", 2 + ((index / 2) % 39) as i64);
-                p.set("n", if (index / 78) % 2 == 0 { 255 } else { 254 });
+                // every t in 2..=40, then thresholds around the 64 / 128 / 255 marks (fixed-size tables, batch sizes, u8 limits)
+                const HIGH_T: [i64; 13] = [41, 63, 64, 65, 66, 100, 127, 128, 129, 200, 253, 254, 255];
+                let ti = (index / 2) % 52;
+                p.set("t", if ti < 39 { 2 + ti as i64 } else { HIGH_T[(ti - 39) as usize] });
+                p.set("n", if (index / 104) % 2 == 0 { 255 } else { 254 });
                 p.steps.push(Step::new("large", &[x.next() as i64 & 0xffff]));
                 return p;
             }
